@@ -181,5 +181,43 @@ pub fn run(ctx: &Ctx) -> Report {
             rep.set(&t.name, "alg_name_checked", 1);
         }
     }
+    // ---- user-supplied S-boxes with long names: the S-box parameter must stay identifiable
+    if ctx.wants_name("magma::Gost89<long-named user S-box>") {
+        let mut rng = ctx.rng("names:longsbox");
+        let mut seen: BTreeMap<String, &'static str> = BTreeMap::new();
+        let mut seen_alg: BTreeMap<String, &'static str> = BTreeMap::new();
+        let mut first: BTreeMap<&'static str, String> = BTreeMap::new();
+        for i in 0..ctx.budget(8, 64, 2) {
+            let cl = if i == 0 { 1 } else { gen::pick_class(&mut rng, i) };
+            let key = gen::gen(&mut rng, 32, cl);
+            for (sname, dbg, alg) in crate::registry::long_sbox_names(&key) {
+                let ty = format!("magma::Gost89<user S-box named \"{}\">", if sname.len() > 40 { &sname[..sname.char_indices().nth(40).map(|(p, _)| p).unwrap_or(sname.len())] } else { sname });
+                rep.case(case_hash(&ty, &key, &[], 3), i > 0);
+                if let Some(d0) = first.get(sname) {
+                    if *d0 != dbg {
+                        rep.violation(format!("names|{}|Debug output depends on the key", ty), J::obj(vec![("sbox_name", J::s(sname)), ("debug_a", J::s(d0)), ("debug_b", J::s(&dbg)), ("key_b", J::s(gen::hex(&key)))]));
+                    }
+                    continue;
+                }
+                first.insert(sname, dbg.clone());
+                for (what, text) in [("Debug", &dbg), ("AlgorithmName", &alg)] {
+                    if !text.contains(sname) || !norm(text).contains("gost89") {
+                        rep.violation(
+                            format!("names|{}|{} does not show the S-box parameter's full name", ty, what),
+                            J::obj(vec![("sbox_name", J::s(sname)), ("text", J::s(text)), ("name_len", J::I(sname.len() as i64))]),
+                        );
+                    }
+                }
+                if let Some(o) = seen.insert(dbg.clone(), sname) {
+                    rep.violation(format!("names|{}|Debug text is shared with a different S-box parameter", ty), J::obj(vec![("sbox_name", J::s(sname)), ("other", J::s(o)), ("text", J::s(&dbg))]));
+                }
+                if let Some(o) = seen_alg.insert(alg.clone(), sname) {
+                    rep.violation(format!("names|{}|AlgorithmName is shared with a different S-box parameter", ty), J::obj(vec![("sbox_name", J::s(sname)), ("other", J::s(o)), ("text", J::s(&alg))]));
+                }
+                rep.sample(J::obj(vec![("type", J::s(&ty)), ("debug", J::s(&dbg)), ("alg_name", J::s(&alg))]));
+                rep.set(&ty, "long_sbox_name_checked", 1);
+            }
+        }
+    }
     rep
 }
